@@ -18,6 +18,9 @@ import warnings
 import numpy as np
 
 
+SHELL_ATTRS = ("angmom", "coord", "exps", "coeffs", "norm_cont", "coord_type", "icenter")
+
+
 def snap(x, depth=0):
     """Canonical, bit-exact, hashable description of an object graph."""
     if isinstance(x, np.ndarray):
@@ -30,6 +33,10 @@ def snap(x, depth=0):
         return ("dict", tuple((repr(k), snap(v, depth + 1)) for k, v in x.items()))
     if isinstance(x, (list, tuple)):
         return (type(x).__name__, tuple(snap(v, depth + 1) for v in x))
+    if all(hasattr(x, a) for a in SHELL_ATTRS):
+        # a shell is described by its documented attributes (a correct private cache is not a modification;
+        # a stale one is caught by the history-independence probes and the renormalisation invariant)
+        return ("shell", type(x).__name__, tuple((a, snap(getattr(x, a), depth + 1)) for a in SHELL_ATTRS))
     if hasattr(x, "__dict__") and depth < 6:
         return ("obj", type(x).__name__, tuple((k, snap(v, depth + 1)) for k, v in sorted(vars(x).items())))
     return ("r", repr(x))
@@ -150,6 +157,9 @@ class HistoryExplorer:
                     o.check("valid call returns: " + label, raised is None,
                             detail=None if raised is None else "%s: %s" % (type(raised).__name__, str(raised)[:150]),
                             key="valid-call-raised:" + op.name)
+                    if raised is None and isinstance(res, tuple) and len(res) == 3 and isinstance(res[2], bool):
+                        o.check("result handed to the caller is not shared with later calls: " + label, res[2],
+                                key="result-aliased:" + op.name, token=("alias", op.name))
                     if raised is None:
                         # same call twice in a row -> bit-identical
                         try:
